@@ -177,6 +177,13 @@ type Conn struct {
 	lastRead time.Duration
 }
 
+func (c *Conn) zone() string {
+	if c.If != "" {
+		return c.If
+	}
+	return "veth0"
+}
+
 // NewConn must be called inside the bubble.
 func NewConn(tr *Trace, gen int) *Conn {
 	return &Conn{Tr: tr, Gen: gen, wake: make(chan struct{}, 1)}
@@ -238,7 +245,9 @@ func (c *Conn) ReadFrom() (ndp.Message, *ipv6.ControlMessage, netip.Addr, error)
 				return nil, nil, netip.Addr{}, in.Err
 			}
 			c.Tr.Add(Event{Kind: "read_deliver", Gen: c.Gen, If: c.If, ID: in.ID, Src: in.From.String(), Msg: in.Msg.Type().String(), Val: int64(in.Hop)})
-			return in.Msg, &ipv6.ControlMessage{HopLimit: in.Hop}, in.From, nil
+			// Like *ndp.Conn, always attach the zone of the interface that backs the
+			// connection to the source address, the unspecified address included.
+			return in.Msg, &ipv6.ControlMessage{HopLimit: in.Hop}, in.From.WithZone(c.zone()), nil
 		}
 		c.reading = true
 		c.mu.Unlock()
@@ -270,6 +279,8 @@ func b2i(b bool) int64 {
 
 // WriteTo implements system.Conn.
 func (c *Conn) WriteTo(m ndp.Message, _ *ipv6.ControlMessage, dst netip.Addr) error {
+	// *ndp.Conn overwrites whatever zone the destination carries with its own.
+	dst = dst.WithZone("")
 	c.mu.Lock()
 	n := c.writes
 	c.writes++
